@@ -215,7 +215,8 @@ def call_param(ev, f, node, st):
     if spec is None:
         raise Unsupported("callable parameter %s has no abstract contract" % pname)
     args = [ev.ev(a, st) for a in node.args]
-    env = {"a%d" % i: v for i, v in enumerate(args)}
+    env = dict(ev.ctx.old_env)          # the abstract contract may mention the enclosing function's parameters / ghosts
+    env.update({"a%d" % i: v for i, v in enumerate(args)})
     return apply_contract(ev, "<param:%s>" % pname, spec, env, {}, st, node, ev.module, tag=f)
 
 
@@ -800,6 +801,28 @@ def lib_maximum(ev, args, kw, st, node):
         return Seq.from_fn(a.n, REAL, elem)
     x, y, _ = num_pair(as_num(a), as_num(b))
     return Num(z3.If(x >= y, x, y))
+
+
+def _uts_array(name):
+    def f(ev, args, kw, st, node):
+        """uts.gradient.*: an array of the same length, an uninterpreted function of the inputs (A-PURE-DEP)  [A]"""
+        x, y = args[0], args[1]
+        ev.need("%s needs at least 3 points" % name, st, x.n >= 3, node)
+        ev.need("broadcast: equal lengths", st, x.n == y.n, node)
+        arr = uf(name, z3.ArraySort(z3.IntSort(), z3.RealSort()), *(flat_terms(x) + flat_terms(y)))
+        return Seq(x.n, z3.IntVal(0), [arr], REAL, "array")
+    return f
+
+
+@lib("uts.thresholding.isodata")
+def lib_isodata(ev, args, kw, st, node):
+    """uts.thresholding.isodata: a real threshold, an uninterpreted function of the array contents (A-PURE-DEP)  [A]"""
+    v = args[0]
+    return Num(uf("uts_isodata", z3.RealSort(), *flat_terms(v)))
+
+
+LIB["uts.gradient.cfd"] = _uts_array("uts_cfd")
+LIB["uts.gradient.csd"] = _uts_array("uts_csd")
 
 
 @lib("numpy.all")
